@@ -1,6 +1,7 @@
 import PMH.Props.C02
 import PMH.Proofs.PmhLaws
 import PMH.Proofs.PmhColl
+import PMH.Proofs.JpLaw
 /-!
 # C01 — ProbMinHash estimates the probability-Jaccard index J_P
 
@@ -131,5 +132,49 @@ theorem pmh2_equal_weights_unbiased {ι : Type} [Fintype ι] [DecidableEq ι] [I
   pmh2_equal_weights_collision_count top init m hm t offsetOf unif hn idOf hid w hw Ω hΩ p hp hinj htop hA hB hAB
     itemsA itemsB hsa hsb a b ea eb
 end Sample
+
+
+/-! ### unequal weights: P(collision) = J_P  (measure theory; `Proofs/JpLaw.lean`)
+
+`x d` = first-hit time of the position by item `d` after dividing out the common rate — by (a)/(b) above an
+Exp(1) variable; items have independent streams (ideal hashing), so `x ~ μ ι = ⨂_d Exp(1)`.  Position `p` of
+the sketch of the weighted set `w` holds the item minimising `x d / w d` ((d) above); the SAME `x` serves
+both sets. -/
+section JP
+open MeasureTheory PMH.JpLaw
+variable {ι : Type} [Fintype ι] [DecidableEq ι]
+
+/-- **C01 (i)** single weighted set: a position holds item `d` with probability `w_d / Σ w` -/
+theorem position_holds_item_with_probability {w : ι → ℝ} (hw : ∀ e, 0 ≤ w e) {d : ι} (hd : 0 < w d) :
+    μ ι {x | winner w x d} = ENNReal.ofReal (w d / ∑ e, w e) := single_set_law hw hd
+
+/-- **C01 (j)** two weighted sets: the probability that the same item wins in both — a collision at the
+position — is the probability-Jaccard index `J_P = Σ_d 1 / Σ_e max(wA e / wA d, wB e / wB d)` -/
+theorem collision_probability_is_JP {wA wB : ι → ℝ} (hA : ∀ e, 0 ≤ wA e) (hB : ∀ e, 0 ≤ wB e) :
+    μ ι {x | ∃ d, winner wA x d ∧ winner wB x d} = ENNReal.ofReal (JP wA wB) := collision_law hA hB
+
+/-- the same with the `CS.argmin` of (d)/(e) — ties have probability 0 -/
+theorem collision_probability_is_JP_argmin [Inhabited ι] {wA wB : ι → ℝ} (hA : ∀ e, 0 ≤ wA e) (hB : ∀ e, 0 ≤ wB e)
+    (hneA : (supp wA).Nonempty) (hneB : (supp wB).Nonempty) :
+    μ ι {x | CS.argmin (fun d => x d / wA d) (supp wA) = CS.argmin (fun d => x d / wB d) (supp wB)}
+      = ENNReal.ofReal (JP wA wB) := collision_law_argmin hA hB hneA hneB
+
+open Classical in
+/-- **C01 (k)** the sentence of the property: the expected FRACTION of equal signature positions is `J_P`
+(each position's first-hit vector has law `μ ι`; nothing is assumed about dependence ACROSS positions) -/
+theorem expected_fraction_is_JP {Ω : Type} [MeasurableSpace Ω] (P : Measure Ω) [IsProbabilityMeasure P]
+    {m : ℕ} (hm : 0 < m) (X : Fin m → Ω → ι → ℝ) (hX : ∀ p, Measurable (X p))
+    (hlaw : ∀ p, P.map (X p) = μ ι) {wA wB : ι → ℝ} (hA : ∀ e, 0 ≤ wA e) (hB : ∀ e, 0 ≤ wB e) :
+    ∫ ω, ((Finset.univ.filter fun p => ∃ d, winner wA (X p ω) d ∧ winner wB (X p ω) d).card : ℝ) / m ∂P
+      = JP wA wB := expected_fraction P hm X hX hlaw hA hB
+
+/-- sanity: `J_P(w,w) = 1`; for 0/1 weights `J_P` is the Jaccard index; `0 ≤ J_P ≤ 1`; an unequal example -/
+theorem JP_facts : (∀ (w : ι → ℝ), (∀ e, 0 ≤ w e) → 0 < ∑ e, w e → JP w w = 1) ∧
+    (∀ A B : Finset ι, JP (fun e => if e ∈ A then (1:ℝ) else 0) (fun e => if e ∈ B then (1:ℝ) else 0)
+      = ((A ∩ B).card : ℝ) / ((A ∪ B).card : ℝ)) ∧
+    (∀ wA wB : ι → ℝ, (∀ e, 0 ≤ wA e) → (∀ e, 0 ≤ wB e) → 0 ≤ JP wA wB ∧ JP wA wB ≤ 1) :=
+  ⟨fun _ hw hp => JP_self hw hp, JP_indicator, fun _ _ hA hB => ⟨JP_nonneg hA, JP_le_one hA hB⟩⟩
+example : JP (ι := Fin 2) ![1, 2] ![2, 1] = 2 / 3 := JP_example
+end JP
 
 end PMH.C01
